@@ -83,7 +83,8 @@ Definition op_of (v : verb) (p : path) (o : opd) : op := mko v p (dparams o) (db
 Record mparam := mkm { ma_attr : N; ma_wire : N; ma_req : bool; ma_def : bool; ma_auth : bool }.
 
 (* RouteExpr: method and FullPaths() (one per service base path) *)
-Record route := mkr { rverb : verb; rpaths : list path }.
+(* rabs: RouteExpr.IsAbsolute, the route path starts with "//" *)
+Record route := mkr { rverb : verb; rabs : bool; rpaths : list path }.
 
 Record endpoint := mke {
   routes : list route;
@@ -101,7 +102,8 @@ Record endpoint := mke {
 Record fileserver := mkf { fpaths : list path }.
 
 Record service := mks { endpoints : list endpoint; files : list fileserver }.
-Record design := mkd { services : list service; api_reqs : list (list N) }.
+(* api_base: the API level HTTP Path(...) *)
+Record design := mkd { services : list service; api_reqs : list (list N); api_base : path }.
 
 (* ---- the generated server ---- *)
 
@@ -236,7 +238,7 @@ Definition doc_ops (m : list (dkey * opd)) : list op :=
 Record mendpoint := mkme { me_ep : endpoint; me_gen : bool }.
 Record mfile := mkmf { mf_fs : fileserver; mf_gen : bool }.
 Record mservice := mkms { ms_eps : list mendpoint; ms_files : list mfile; ms_gen : bool }.
-Record mdesign := mkmd { md_services : list mservice; md_reqs : list (list N) }.
+Record mdesign := mkmd { md_services : list mservice; md_reqs : list (list N); md_base : path }.
 
 Definition sel_service (keep : bool -> bool -> bool) (s : mservice) : service :=
   mks (map me_ep (filter (fun e => keep (ms_gen s) (me_gen e)) (ms_eps s)))
@@ -244,10 +246,49 @@ Definition sel_service (keep : bool -> bool -> bool) (s : mservice) : service :=
 
 (* what the server mounts: everything *)
 Definition mounted (m : mdesign) : design :=
-  mkd (map (sel_service (fun _ _ => true)) (md_services m)) (md_reqs m).
+  mkd (map (sel_service (fun _ _ => true)) (md_services m)) (md_reqs m) (md_base m).
 (* what the documents are built from: services, endpoints and file servers not marked *)
 Definition visible (m : mdesign) : design :=
-  mkd (map (sel_service (fun sg g => sg && g)) (md_services m)) (md_reqs m).
+  mkd (map (sel_service (fun sg g => sg && g)) (md_services m)) (md_reqs m) (md_base m).
 (* the rest *)
 Definition hidden (m : mdesign) : design :=
-  mkd (map (sel_service (fun sg g => negb (sg && g))) (md_services m)) (md_reqs m).
+  mkd (map (sel_service (fun sg g => negb (sg && g))) (md_services m)) (md_reqs m) (md_base m).
+
+(* ---- OpenAPI 2: basePath and path keys ---- *)
+
+(* v2 hasAbsoluteRoutes: some documented route is absolute, or a documented file server exists *)
+Definition has_abs (d : design) : bool :=
+  existsb (fun s => existsb (fun e => existsb rabs (routes e)) (endpoints s)) (services d).
+Definition has_files (d : design) : bool :=
+  existsb (fun s => match svc_files s with [] => false | _ => true end) (services d).
+
+(* NewV2: basePath := root.API.HTTP.Path, "" if hasAbsoluteRoutes *)
+Definition v2_base (d : design) : path := if has_abs d || has_files d then [] else api_base d.
+
+Fixpoint is_prefix (a b : path) : bool :=
+  match a, b with
+  | [], _ => true
+  | x :: a', y :: b' => seg_eqb x y && is_prefix a' b'
+  | _, [] => false
+  end.
+
+(* "" and "/" *)
+Definition trivial_base (bp : path) : bool := match bp with [] => true | [Lit 0] => true | _ => false end.
+
+(* buildPathFromExpr: if bp != "/" { key = strings.TrimPrefix(key, bp) }, bp the base path with
+   its wildcards rewritten; on segments: the prefix goes when it is one *)
+Definition v2_key (bp key : path) : path :=
+  if trivial_base bp then key else if is_prefix bp key then skipn (length bp) key else key.
+
+(* what a reader of the document resolves: basePath + key *)
+Definition v2_resolve (bp key : path) : path := if trivial_base bp then key else (bp ++ key)%list.
+
+(* (method, key as written) of every operation of openapi.json, for a document whose
+   operations on full paths are ops *)
+Definition doc2_written (d : design) (ops : list op) : list (verb * path) :=
+  map (fun o => (overb o, v2_key (norm (v2_base d)) (opath o))) ops.
+
+(* the operations of openapi.json as a reader resolves them: each key read against basePath *)
+Definition doc2_resolved (d : design) (ops : list op) : list op :=
+  let bp := norm (v2_base d) in
+  map (fun o => mko (overb o) (v2_resolve bp (v2_key bp (opath o))) (oparams o) (obody o) (ostat o) (osec o)) ops.
